@@ -216,3 +216,33 @@ func Verif_C19_DeleteThenEvict() {
 	vr.Assert(s.memUsed >= 0, "C19.evicting.figure_never_negative")
 	vr.Reach("end")
 }
+
+// Verif_C19_WriteOverExpired: a write over an entry whose deadline has passed but which is still
+// stored (nothing has read or swept it yet) replaces it: the figure is that of the new dataset,
+// and goes back to zero when the key is deleted.
+func Verif_C19_WriteOverExpired() {
+	s, _, nowMs := c04Server()
+	k := vr.Tok("k")
+	verifPreset(s, 0, k, c19Value("old", vr.Choose("old_kind", 3)))
+	dl, dlMs := symInstant("dl")
+	verifPresetExpiry(s, 0, k, dl)
+	expired := vr.Choose("expired", 2) == 1
+	if expired {
+		vr.Assume(dlMs < nowMs)
+	} else {
+		vr.Assume(dlMs > nowMs)
+	}
+	switch vr.Choose("write", 3) {
+	case 0:
+		_ = s.setValues(verifCtx(0), map[string]interface{}{k: vr.Tok("w")})
+	case 1:
+		c05Run(s, "SET", k, vr.Tok("w"))
+	case 2:
+		c05Run(s, "MSET", k, vr.Tok("w"), vr.Tok("k2"), "x")
+	}
+	vr.Quiesce()
+	vr.Assert(s.memUsed == c19Fresh(s), "C19.write_over_expired.figure_is_that_of_the_new_dataset")
+	s.Flush(-1)
+	vr.Assert(s.memUsed == 0, "C19.write_over_expired.empty_is_zero")
+	vr.Reach("end")
+}
